@@ -312,6 +312,78 @@ func c10exec(j run.Job, a *run.Acc) {
 			continue
 		}
 
+		if j.Family == "backtrack" {
+			// two alternatives over the SAME token texts with independent trimming: when the first one fails the second one
+			// re-reads the same whitespace from other starting points with the same reader
+			toksB := make([]c10tok, len(toks))
+			hb := run.Hash(in)
+			for i, t := range toks {
+				t.Left, t.Right = int(hb>>uint(4*i))%5-1, int(hb>>uint(4*i+2))%5-1
+				t.Trim = false
+				toksB[i] = t
+			}
+			mk := func(ts []c10tok) parsley.Parser {
+				var qs []parsley.Parser
+				for _, t := range ts {
+					qs = append(qs, c10parser(t))
+				}
+				return combinator.SeqOf(combinator.SeqOf(qs...), parser.End()).Bind(interpreter.Select(0))
+			}
+			root := combinator.Choice(mk(toks), mk(toksB))
+			wantA, spansA, xA := c10simulate(in, toks)
+			wantB, spansB, xB := c10simulate(in, toksB)
+			okA, okB := wantA == "" && xA == len(in), wantB == "" && xB == len(in)
+			var node parsley.Node
+			var err error
+			pan := ""
+			func() {
+				defer func() {
+					if e := recover(); e != nil {
+						pan = fmt.Sprint(e)
+					}
+				}()
+				node, err = parsley.Parse(ctx, root)
+			}()
+			d["tokens_second_alternative"] = toksB
+			a.Count("backtracking cases (two alternatives over the same tokens)", 1)
+			switch {
+			case pan != "":
+				d["panic"] = pan
+				a.Violate("panic", "panic", d)
+			case (node == nil) == (err == nil):
+				a.Violate("neither-or-both", "neither-or-both", d)
+			case !okA && !okB:
+				if err == nil {
+					a.Violate("forbidden-whitespace-accepted", "forbidden-whitespace-accepted", d)
+				}
+				a.Count("backtracking: both alternatives rejected (totality only)", 1)
+			case err != nil:
+				d["error"] = err.Error()
+				a.Violate("permitted-whitespace-rejected", "permitted-whitespace-rejected", d)
+			default:
+				spans := spansA
+				if !okA {
+					spans = spansB
+					a.Count("backtracking: accepted through the second alternative", 1)
+					a.NonTrivial("bt:" + in + fmt.Sprint(toks, toksB))
+				}
+				seq, ok := node.(*ast.NonTerminalNode).Children()[0].(*ast.NonTerminalNode)
+				if !ok || len(seq.Children()) != len(toks) {
+					a.Violate("shape", "shape", d)
+					break
+				}
+				for i, c := range seq.Children() {
+					if int(c.Pos())-base != spans[i].s || int(c.ReaderPos())-base != spans[i].e {
+						d["token_index"] = i
+						d["got"] = fmt.Sprintf("%d..%d", int(c.Pos())-base, int(c.ReaderPos())-base)
+						d["want"] = fmt.Sprintf("%d..%d", spans[i].s, spans[i].e)
+						a.Violate("span", "span", d)
+						break
+					}
+				}
+			}
+			continue
+		}
 		var ps []parsley.Parser
 		for _, t := range toks {
 			ps = append(ps, c10parser(t))
@@ -423,6 +495,7 @@ func init() {
 				jobs = append(jobs, run.Job{Family: "any-modes", Seed: seed*100000 + int64(i), N: per})
 				jobs = append(jobs, run.Job{Family: "permitted", Seed: seed*100000 + 30000 + int64(i), N: per / 2})
 				jobs = append(jobs, run.Job{Family: "repeat", Seed: seed*100000 + 60000 + int64(i), N: per / 2})
+				jobs = append(jobs, run.Job{Family: "backtrack", Seed: seed*100000 + 80000 + int64(i), N: per / 2})
 			}
 			return jobs
 		},
